@@ -55,7 +55,7 @@ def _case(draw, tier):
                 # a side chain off the carried variable: ep(i) -> epoch = i // m (changes every m-th iteration only), cfgn(epoch) -> cfg,
                 # and snap(i) which WAITS for the data name `cfg` without taking it: its input changes every iteration, `cfg` does not
                 "datawait": draw(st.integers(2, 3)) if form != "chat" and prob(draw, 0.4) else None}
-    topo = draw(gen.g1_nodes(3, 8, default_on_edge=0.15))
+    topo = draw(gen.g1_nodes(3, 8, default_on_edge=0.15, p_const=0.2))  # incl. data outputs whose produced value is None / falsy
     n = len(topo)
     nsig = draw(st.integers(1, 3))
     for si in range(nsig):
